@@ -739,6 +739,13 @@ class Norm:
                 seen = [p for p in seen if p not in implied]
             if tag == "and" and any(c_not(p) in seen for p in seen):
                 return FALSE
+            if tag == "and":
+                # an exception that is an instance of A is not "an exception that is no instance of A" (with statements)
+                for p in seen:
+                    if p[0] == "raised" and len(p[2]) == 1 and p[2][0].startswith("not "):
+                        excluded = set(p[2][0][4:].split("|"))
+                        if any(q[0] == "raised" and q[1] == p[1] and q is not p and set(q[2]) <= excluded for q in seen):
+                            return FALSE
             if tag == "or" and any(c_not(p) in seen for p in seen):
                 return TRUE
             return c_and(seen) if tag == "and" else c_or(seen)
